@@ -236,12 +236,15 @@ func TestVerifC05(t *testing.T) {
 	w := bufio.NewWriter(outf)
 	defer w.Flush()
 	log.SetOutput(ioutil.Discard) // cleanupMounts reports replication<=0 through the global logger
+	tmp := t.TempDir()
 	sc := bufio.NewScanner(in)
 	sc.Buffer(make([]byte, 1<<20), 1<<26)
 	for sc.Scan() {
 		f := strings.Split(sc.Text(), " ")
 		if len(f) > 0 && f[0] == "cs" {
 			fmt.Fprintln(w, verifC05RunCS(f))
+		} else if len(f) > 0 && f[0] == "gs" {
+			fmt.Fprintln(w, verifC05RunGS(f, tmp))
 		} else {
 			fmt.Fprintln(w, verifC05Run(f))
 		}
